@@ -786,6 +786,12 @@ func (b *Builder) Finish() error {
 
 	b.finishedShards = map[string]string{}
 
+	// If a new shard could not be installed, the old shards are the only
+	// complete copy of the repository: keep them.
+	if b.buildError != nil {
+		return b.buildError
+	}
+
 	for p := range toDelete {
 		// Don't delete compound shards, set tombstones instead.
 		if b.opts.ShardMerging && strings.HasPrefix(filepath.Base(p), "compound-") {
